@@ -17,7 +17,8 @@ import (
 
 func init() {
 	fw.Register(&fw.Prop{
-		ID: "C07",
+		ID:       "C07",
+		Parallel: 4, // cases are judged on 4 goroutines per shard: the library functions are stateless, shared state inside them shows up as wrong verdicts
 		Rule: "(seed, message) pairs: seeds random / all-zero / all-0xff / single-bit; messages of every length 0..2400 (both SHA-512 padding regimes of prefix||M and R||A||M, and beyond any plausible fixed-size buffer), lengths around 2^10..2^17, and random 1..64 KiB. For each pair the monitor compares NewKeyFromSeed, Public, Seed, Sign (twice), PrivateKey.Sign(Hash(0)), GenerateKey(reader) byte for byte with crypto/ed25519 and with the big-integer RFC 8032 signer, checks Verify accepts, pre-hashed options are refused and short readers fail. " +
 			"Non-trivial: distinct (seed, len(msg)) pairs (all cases).",
 		Assumptions: []string{"crypto/ed25519 and SHA-512 of the Go standard library", "the RFC 8032 model in harness/oracle/ed (self-tested against RFC 8032 vectors)"},
@@ -40,6 +41,8 @@ func init() {
 		Required: []string{"sign ok", "model signer compared", "short reader refused", "prehash refused"},
 	})
 }
+
+var kept fw.Keeper
 
 type hashOpt crypto.Hash
 
@@ -85,6 +88,10 @@ func judge(class string, key []byte, o *fw.Obs) {
 	}) {
 		return
 	}
+	kept.Keep("signature returned by Sign", sig1)
+	kept.Keep("private key returned by NewKeyFromSeed", priv)
+	kept.Keep("seed returned by PrivateKey.Seed", seedBack)
+	defer kept.Check(o)
 	if !bytes.Equal(priv, stdPriv) {
 		o.Fail("key", "NewKeyFromSeed = %x, crypto/ed25519 gives %x", []byte(priv), []byte(stdPriv))
 		return
